@@ -200,7 +200,6 @@ theorem inv_utxoAdd {st : St} (h : Inv st) (key value txid n conf : Nat) :
 /-- what the guard of `send` establishes -/
 structure SendOk (st : St) (txid : Nat) (b : TxBody) : Prop where
   fresh : hasTx st txid = false
-  freshIn : ∀ i ∈ st.ins, i.ptx ≠ txid
   nodup : (outpoints b).Nodup
   keys : ∀ o ∈ b.outs, ∀ k, o.2 = some k → k ∈ st.keys
 
@@ -209,8 +208,8 @@ theorem sendGuard_ok {st : St} {txid : Nat} {b : TxBody} (g : sendGuard st txid 
   unfold sendGuard at g
   simp only [Bool.and_eq_true, Bool.not_eq_true', List.all_eq_true, bne_iff_ne, ne_eq,
     decide_eq_true_eq] at g
-  obtain ⟨⟨⟨g1, g2⟩, g4⟩, g5⟩ := g
-  refine ⟨g1, g2, g4, ?_⟩
+  obtain ⟨⟨g1, g4⟩, g5⟩ := g
+  refine ⟨g1, g4, ?_⟩
   intro o ho k hk
   have := g5 o ho
   simp only [hk] at this
@@ -231,8 +230,8 @@ theorem setSpent_spent (v : Bool) (pts : List (Nat × Nat)) (o : OutRec) :
   · simp [h]
   · simp [h]
 
-theorem mem_newOuts {txid : Nat} {b : TxBody} {o : OutRec} (h : o ∈ newOuts txid b) :
-    o.txid = txid ∧ o.spent = false ∧ ∃ p ∈ b.outs, o.key = p.2 := by
+theorem mem_newOuts {st : St} {txid : Nat} {b : TxBody} {o : OutRec} (h : o ∈ newOuts st txid b) :
+    o.txid = txid ∧ o.spent = spentInDb st o.txid o.n ∧ ∃ p ∈ b.outs, o.key = p.2 := by
   unfold newOuts at h
   simp only [List.mem_map] at h
   obtain ⟨p, hp, rfl⟩ := h
@@ -271,7 +270,9 @@ theorem inv_send {st : St} (h : Inv st) (txid : Nat) (b : TxBody) : Inv (send st
         rcases List.mem_append.mp hi with hi | hi
         · rcases List.mem_append.mp ho0 with ho0 | ho0
           · exact h.spentOk o0 ho0 ((spentInDb_iff _ _ _).mpr ⟨i, hi, h1, h2⟩)
-          · exact absurd ((mem_newOuts ho0).1 ▸ h1) (g.freshIn i hi)
+          · -- a new row that a stored input refers to: spent from the start
+            rw [(mem_newOuts ho0).2.1]
+            exact (spentInDb_iff _ _ _).mpr ⟨i, hi, h1, h2⟩
         · exfalso; apply hc
           have := (mem_inRecs hi).2
           rwa [h1, h2] at this
